@@ -664,18 +664,10 @@ impl<'a> Lexer<'a> {
                     // could've arrived here by passing through whitespace state
                     // check len of characters so see if 2 tokens need to be created
                     if self.current_characters.len() > 2 {
-                        trace!("Creating whitespace token from extra characters");
-                        // have extra characters, split them into a whitespace token
-                        let spaces_characters = &self.current_characters[..self.current_characters.len() - 2];
-                        next_token = Some(LexerToken::new(
-                            spaces_characters.to_string(),
-                            TokenType::Whitespace,
-                            self.token_start_row,
-                            // actual token is determined after current, minus 1 to make accurate
-                            self.token_start_column,
-                        ));
-
-                        self.current_characters = self.current_characters[(self.current_characters.len() - 2)..].to_string();
+                        // arrived through horizontal space before the line break (a line with trailing blanks),
+                        // only one token can be returned per character so the blanks stay part of the separator
+                        trace!("Keeping leading blanks in the subexpression token");
+                        self.current_token_type = Some(TokenType::Subexpression);
                     }
 
                     // wrap coordinates to new line
